@@ -240,6 +240,10 @@ var typeForms = gen.TypeForms
 
 func genProjectCase(t *rapid.T) Case {
 	p := gen.GraphProject(t)
+	if len(p.Cross) == 0 && rapid.IntRange(0, 3).Draw(t, "nest") == 0 {
+		// every schema registers the types its own text names: types behind a type are known to that type only
+		p.Nest = true
+	}
 	if rapid.IntRange(0, 3).Draw(t, "cross") == 0 {
 		// the type objects register each other (and themselves) before the root registers them: loops in
 		// the registration graph that do not pass through the root
